@@ -54,11 +54,12 @@ theorem quote_strip (bs sc k : Nat) (c : Char) (hc : c ≠ ' ' ∧ c ≠ '\t') (
 
 /-- **C06 (D)** — the nested block loop a container runs hands back the line tables, `lineMax`,
 `blkIndent` and `level` it was given (so the container's own restore code sees what it saved) -/
-theorem nested_loop_frame (rules : List BRule) (hok : ∀ r ∈ rules, RuleOK r) (hlast : ∃ r ∈ rules, AlwaysMatches r)
+theorem nested_loop_frame (P : BState → Nat → Prop) (hP : FrameClosed P) (rules : List BRule) (hok : ∀ r ∈ rules, RuleOK P r)
+    (hlast : ∃ r ∈ rules, AlwaysMatches P r)
     (maxNesting : Int) (s : BState) (startLine endLine : Nat) (hlen : s.lines.length = s.lineMax + 1)
-    (hend : endLine ≤ s.lineMax) :
+    (hend : endLine ≤ s.lineMax) (hPs : P s endLine) :
     ∃ s', blockTokenize rules maxNesting s startLine endLine = .ok s' ∧ s.FrameEq s' :=
-  C01.block_tokenize_total rules hok hlast maxNesting s startLine endLine hlen hend
+  C01.block_tokenize_total P hP rules hok hlast maxNesting s startLine endLine hlen hend hPs
 
 /-! non-vacuity -/
 example : (quoteOffsets true 0 0 "   x".toList).sCount = 2 ∧ lineSCount "  x".toList = 2 := by decide
